@@ -287,6 +287,9 @@ fn run_c11_threads(case: &C11Case) -> Outcome {
     let mut pending: std::collections::VecDeque<(u16, u8)> = Default::default(); // (pid, kind: 1 puback, 2 pubrec, 3 suback, 4 unsuback)
     let mut outstanding: BTreeSet<u16> = BTreeSet::new();
     let mut sub_ids: BTreeSet<u32> = BTreeSet::new();
+    // QoS 2 identifiers whose PUBREC has been fed and whose PUBREL is awaited
+    let mut qos2_inflight: BTreeSet<u16> = BTreeSet::new();
+    let mut abandoned = false;
     let mut idle = 0u32;
     let mut allocations = 0u64;
     let mut max_out = 0usize;
@@ -336,7 +339,13 @@ fn run_c11_threads(case: &C11Case) -> Outcome {
                     }
                     pending.push_back((x.pid, 4));
                 }
-                Ok(rc::Packet::Pubrel(a)) => pending.push_back((a.pid, 5)),
+                Ok(rc::Packet::Pubrel(a)) => {
+                    // only the PUBREL of an exchange in flight is answered; a stray one is not
+                    // this property's business
+                    if qos2_inflight.remove(&a.pid) {
+                        pending.push_back((a.pid, 5));
+                    }
+                }
                 Ok(_) => {}
                 Err(e) => {
                     let sig = if e.0.contains("packet identifier 0") { "C11/packet-identifier-zero" } else { "C11/malformed" };
@@ -356,6 +365,8 @@ fn run_c11_threads(case: &C11Case) -> Outcome {
             if kind != 2 {
                 // a QoS 2 identifier stays in use until its PUBCOMP
                 outstanding.remove(&pid);
+            } else {
+                qos2_inflight.insert(pid);
             }
             ack(&mut w, pid, kind);
             idle = 0;
@@ -367,10 +378,11 @@ fn run_c11_threads(case: &C11Case) -> Outcome {
             // a loaded machine may starve the worker threads for a while: wait, do not judge
             std::thread::sleep(std::time::Duration::from_millis(1));
         }
-        if idle > 400_000 {
-            // five minutes without any progress: infrastructure (exit 2), never a violation
-            eprintln!("C11 multi-thread variant: no progress for minutes ({allocations} allocations, {} pending): inconclusive", pending.len());
-            std::process::exit(2);
+        if idle > 105_000 {
+            // seconds without any progress (an operation that never completes is not this
+            // property's business): abandon the case without a verdict
+            abandoned = true;
+            break;
         }
         std::thread::yield_now();
     }
@@ -393,8 +405,11 @@ fn run_c11_threads(case: &C11Case) -> Outcome {
             _ => {}
         }
     }
-    o.nontrivial = allocations > 65_536 && max_out >= 2;
+    o.nontrivial = allocations > 65_536 && max_out >= 2 && !abandoned;
     o.class(format!("max-outstanding-{}", (max_out / 10) * 10));
+    if abandoned {
+        o.excluded.push("multi-thread variant abandoned without verdict: no progress (an operation did not complete)".into());
+    }
     o
 }
 
